@@ -316,6 +316,51 @@ theorem accessCell_keeps (f : Nat) (ds : DblSem) (h : Heap) (c : Cell) (k : Nat)
 theorem setPay_next (h : Heap) (b : Nat) (p : Pay) : (setPay h b p).next = h.next := by
   unfold setPay; split <;> rfl
 
+theorem setBoxedCell_keeps (f : Nat) (h : Heap) (c : Cell) (p : Pay) (h' : Heap) (c' : Cell) (x : Nat)
+    (r : setBoxedCell f h c p = some (h', c')) (hb : Bounded h) (hx : x < h.next) (hc : cellCnt c x = 0)
+    (hp : cntCells p.cells x = 0) (hs : stored h.heap h.next x = 0) : Keeps h h' x ∧ cellCnt c' x = 0 := by
+  unfold setBoxedCell at r
+  split at r
+  · cases hr : release f h c with
+    | none => rw [hr] at r; cases r
+    | some h1 =>
+      rw [hr] at r
+      simp only [Option.some.injEq, Prod.mk.injEq] at r
+      obtain ⟨e1, e2⟩ := r
+      subst e1 e2
+      have k1 := release_keeps f h c h1 x hr hb hc hs
+      have k2 := copyPay_keeps h1 k1.bnd p x hp k1.unst
+      have k3 := alloc_keeps (copyPay h1 p).1 k2.bnd (copyPay h1 p).2 x (by have := k1.mono; have := k2.mono; omega)
+        (by rw [copyPay_cnt]; exact hp) k2.unst
+      refine ⟨(k1.trans k2).trans k3, ?_⟩
+      simp only [alloc_id, cellCnt_ptr]
+      have := k1.mono; have := k2.mono
+      have : ¬ (copyPay h1 p).1.next = x := by omega
+      simp [this]
+  · cases c with
+    | null => cases r
+    | inl y => cases r
+    | ptr b =>
+      have hbx : b ≠ x := by intro e; subst e; simp [cellCnt_ptr] at hc
+      simp only at r
+      cases hbb : h.heap b with
+      | none => rw [hbb] at r; cases r
+      | some blk =>
+        rw [hbb] at r
+        simp only at r
+        have k1 := copyPay_keeps h hb p x hp hs
+        have k2 := setPay_keeps (copyPay h p).1 k1.bnd b (copyPay h p).2 x hbx (by rw [copyPay_cnt]; exact hp) k1.unst
+        cases hr : releaseAll f (setPay (copyPay h p).1 b (copyPay h p).2) blk.pay.cells with
+        | none => rw [hr] at r; cases r
+        | some h3 =>
+          rw [hr] at r
+          simp only [Option.map, Option.some.injEq, Prod.mk.injEq] at r
+          obtain ⟨e1, e2⟩ := r
+          subst e1 e2
+          have hold := cnt_le_stored h hb b blk hbb x
+          have k3 := releaseAll_keeps f blk.pay.cells _ h3 x hr k2.bnd (by omega) k2.unst
+          exact ⟨(k1.trans k2).trans k3, hc⟩
+
 theorem leafOp_keeps (f : Nat) (ds : DblSem) (rd : Nat → Cell) (h : Heap) (c : Cell) (lf : LeafS) (h' : Heap) (c' : Cell)
     (x : Nat) (r : leafOp f ds rd h c lf = some (h', c')) (hsup : LeafSupS lf) (hb : Bounded h) (hx : x < h.next)
     (hc : cellCnt c x = 0) (hsrc : ∀ w ∈ lf.vars, cellCnt (rd w) x = 0) (hs : stored h.heap h.next x = 0) :
@@ -380,21 +425,37 @@ theorem leafOp_keeps (f : Nat) (ds : DblSem) (rd : Nat → Cell) (h : Heap) (c :
   | set e =>
     cases e with
     | lit y =>
-      have hy : y.isBoxed = false := hsup
-      simp only [leafOp, hy, Bool.false_eq_true, if_false] at r
-      split at r
-      · cases hr : release f h c with
-        | none => rw [hr] at r; cases r
-        | some h2 =>
-          rw [hr] at r
-          simp only [Option.map, Option.some.injEq, Prod.mk.injEq] at r
+      have hl : LitOk y := hsup
+      have scalar : y.isBoxed = false → Keeps h h' x ∧ cellCnt c' x = 0 := by
+        intro hy
+        simp only [leafOp, hy, Bool.false_eq_true, if_false] at r
+        split at r
+        · cases hr : release f h c with
+          | none => rw [hr] at r; cases r
+          | some h2 =>
+            rw [hr] at r
+            simp only [Option.map, Option.some.injEq, Prod.mk.injEq] at r
+            obtain ⟨e1, e2⟩ := r
+            subst e1 e2
+            exact ⟨release_keeps f h c h2 x hr hb hc hs, rfl⟩
+        · simp only [Option.some.injEq, Prod.mk.injEq] at r
           obtain ⟨e1, e2⟩ := r
           subst e1 e2
-          exact ⟨release_keeps f h c h2 x hr hb hc hs, rfl⟩
-      · simp only [Option.some.injEq, Prod.mk.injEq] at r
-        obtain ⟨e1, e2⟩ := r
-        subst e1 e2
-        exact ⟨Keeps.refl hb hs, rfl⟩
+          exact ⟨Keeps.refl hb hs, rfl⟩
+      cases y with
+      | str t =>
+        simp only [leafOp, Val.isBoxed, if_true] at r
+        exact setBoxedCell_keeps f h c (.str t) h' c' x r hb hx hc rfl hs
+      | map m => exact absurd hl (by simp [LitOk])
+      | list l => exact absurd hl (by simp [LitOk])
+      | array l => exact absurd hl (by simp [LitOk])
+      | null => exact scalar rfl
+      | bool b => exact scalar rfl
+      | dbl d => exact scalar rfl
+      | int n => exact scalar rfl
+      | uint n => exact scalar rfl
+      | int64 n => exact scalar rfl
+      | uint64 n => exact scalar rfl
     | list l => exact absurd hsup (by simp [LeafSupS])
     | array l => exact absurd hsup (by simp [LeafSupS])
     | map m => exact absurd hsup (by simp [LeafSupS])
